@@ -56,6 +56,8 @@ THEOREMS = [
     'C04_lattice_filltr_trcl', 'C04_frame_transform_torus_total',
     'C04_adjust_matrix_near_orthonormal', 'C04_adjust_matrix_idempotent',
     'C04_trcl_cell', 'C04_transformation_law', 'C04_convert_law',
+    'C04_interface_law', 'C04_convert_law_all', 'C04_entry_law',
+    'C04_trcl_cell_t4',
 ]
 TRUSTED = [
     'hand-written model coq/C04/Model.v (modelled, tied by execution only)',
@@ -393,7 +395,7 @@ def gen_surface(rng, macro=True):
              'cy', 'cz', 'c/x', 'c/y', 'c/z', 'kx', 'ky', 'kz', 'k/x', 'k/y',
              'k/z', 'k/x', 'k/z', 'tx', 'ty', 'tz', 'sq', 'gq', 'gq', 'x', 'z']
     if macro:
-        kinds += ['rpp', 'box', 'rcc', 'trc', 'rec', 'hex']
+        kinds += ['rpp', 'box', 'rcc', 'trc', 'rec', 'hex', 'sph', 'wed', 'ell']
     mn = rng.choice(kinds)
     if mn in ('px', 'py', 'pz'):
         return mn, [c()]
@@ -455,6 +457,15 @@ def gen_surface(rng, macro=True):
         m = rng.choice(PERMS) if rng.random() < 0.6 else quat_rot(rng)
         return mn, [c(), c(), c()] + [float(v) for i in range(3)
                                       for v in m[i] * r()]
+    if mn == 'sph':
+        return mn, [c(), c(), c(), r()]
+    if mn == 'wed':
+        m = rng.choice(PERMS) if rng.random() < 0.6 else quat_rot(rng)
+        return mn, [c(), c(), c()] + [float(v) for i in range(3)
+                                      for v in m[i] * r()]
+    if mn == 'ell':
+        m = rng.choice(PERMS) if rng.random() < 0.6 else quat_rot(rng)
+        return mn, [c(), c(), c()] + [float(v) for v in m[0] * 2.5] + [-1.0]
     if mn in ('rcc', 'trc', 'rec', 'hex'):
         m = rng.choice(PERMS) if rng.random() < 0.6 else quat_rot(rng)
         base = [c(), c(), c()] + [float(v) for v in m[0] * r() * 2]
@@ -936,6 +947,7 @@ def run(res, tier, seed, proofs_ok):
     tie_matrix(res, rng, 300 if quick else 3000)
     pool = tie_small(res, rng, quick)
     tie_surfaces(res, rng, 2600 if quick else 26000, pool)
+    tie_entries(res, rng, 300 if quick else 3000, pool)
     tie_trcl(res, rng, 400 if quick else 4000)
     tie_implicit(res, rng, 200 if quick else 2000)
     tie_lattice(res, rng, 40 if quick else 400)
@@ -1487,6 +1499,67 @@ def tie_pot(res, records):
                lambda i: (f'apply_trcl {records[i][1]} by {records[i][0]} -> '
                           f'{records[i][4]}',
                           {'observed': str(records[i])[:1500]}))
+
+
+def tie_entries(res, rng, n, pool):
+    '''convert_mcnp_surface (SurfaceCollection.join) on whole dictionary
+    entries: elementary surfaces and every macrobody, moved or not.'''
+    from t4_geom_convert.Kernel.Transformation.Transformation \
+        import transformation
+    from t4_geom_convert.Kernel.Surface.ConversionSurfaceMCNPToT4 \
+        import convert_mcnp_surface
+    cases, meta = [], []
+    for _ in range(n):
+        mn, params = gen_surface(rng)
+        _tag, tr = gen_tr12(rng, pool)
+        if len(tr) not in (0, 12):
+            tr = []
+        parts = call(mcnp_parts, mn, params)
+        if parts[0] == 'err':
+            continue
+
+        def run():
+            moved = [(transformation(tr, surf), side)
+                     for surf, side in parts[1]]
+            coll = convert_mcnp_surface(1, moved)
+            out = []
+            for t4s, side in coll.surfs:
+                trf = None
+                if t4s.transform is not None:
+                    trf = ([float(v) for v in t4s.transform[0].flat],
+                           [float(v) for v in t4s.transform[1].flat])
+                out.append((t4s.type_surface.name,
+                            [float(v) for v in t4s.param_surface], trf,
+                            int(side)))
+            return moved, out
+        got = call(run)
+        if got[0] == 'err':
+            if not unexpected(res, got, f'{mn} {params} under {tr}',
+                              {'input': {'mn': mn, 'params': params,
+                                         'tr': tr}}):
+                res.count('entry-impl:' + got[1])
+            continue
+        moved, out = got[1]
+        entry = [(frame_form(surf), int(side)) for surf, side in moved]
+        if any(ms is None for ms, _ in entry):
+            continue
+        cases.append(cpair(clist(cpair(cmsurf(ms), cz(sd))
+                                 for ms, sd in entry),
+                           cres(('ok', out),
+                                lambda l: clist(ct4(x) for x in l))))
+        meta.append((mn, params, tr, out))
+        res.seen(('entry', mn, params, tr))
+        res.count(f'entry:parts={len(entry)}:surfs={len(out)}')
+    bad, errs = common.run_case_files(
+        'c04_entry', HEADER,
+        'list (msurf float * Z) * res (list (t4surf float * Z))',
+        'check_entry', cases)
+    report_tie(res, 'convert_entry', len(cases), bad, errs,
+               lambda i: (f'{meta[i][0]} {meta[i][1]} moved by {meta[i][2]} '
+                          f'-> {str(meta[i][3])[:200]}',
+                          {'input': {'mn': meta[i][0], 'params': meta[i][1],
+                                     'tr': meta[i][2]},
+                           'observed': str(meta[i][3])}))
 
 
 def gen_tokens(rng):
